@@ -112,3 +112,48 @@ Theorem C12_hrr_unitary_has_unit_modulus_spectrum :
 Proof. first [exact: spectrum_unitary | by move=> *; exact: spectrum_unitary | by intros; eapply spectrum_unitary; eauto]. Qed.
 Print Assumptions C12_hrr_unitary_has_unit_modulus_spectrum.
 
+(* make_unitary divides every Fourier coefficient by its modulus; fractional powers raise every
+   coefficient to the exponent.  Whatever real vectors have those spectra behave as the property says,
+   for every d (C a field with orthogonal characters, d invertible - e.g. the complex numbers). *)
+From NSpa Require Import Theory.EquallySpaced Theory.FourierMore.
+Theorem C12_hrr_make_unitary_yields_a_unitary_vector :
+  forall (R : comRingType) (C : fieldType) (iota : {rmorphism R -> C}) p (w : C),
+    w ^+ p.+1 = 1 -> (forall j : 'I_p.+1, j != 0 -> \sum_k chi w k j = 0) -> GRing.lreg (p.+1%:R : C) ->
+    injective iota ->
+    forall (a u : seq R) (m : 'I_p.+1 -> C), size a = p.+1 -> size u = p.+1 ->
+    (forall k, m k != 0) -> (forall k, m k * m (- k) = spectrum iota w a k * spectrum iota w a (- k)) ->
+    (forall k, spectrum iota w u k = spectrum iota w a k / m k) ->
+    hrr_bind_core u (hrr_invert u) = hrr_identity R p.+1.
+Proof. move=> R C iota p w wd orth dreg inj a u m sa su m0 mm H; exact: (normalised_spectrum_is_unitary wd orth dreg inj sa su m0 mm H). Qed.
+Print Assumptions C12_hrr_make_unitary_yields_a_unitary_vector.
+
+Theorem C12_hrr_make_unitary_is_idempotent :
+  forall (R : comRingType) (C : fieldType) (iota : {rmorphism R -> C}) p (w : C),
+    w ^+ p.+1 = 1 -> (forall j : 'I_p.+1, j != 0 -> \sum_k chi w k j = 0) -> GRing.lreg (p.+1%:R : C) ->
+    injective iota ->
+    forall (u u' : seq R) (m : 'I_p.+1 -> C), size u = p.+1 -> size u' = p.+1 -> (forall k, m k = 1) ->
+    (forall k, spectrum iota w u' k = spectrum iota w u k / m k) -> u' = u.
+Proof. move=> R C iota p w wd orth dreg inj u u' m su su' m1 H; exact: (normalising_twice_changes_nothing wd orth dreg inj su su' m1 H). Qed.
+Print Assumptions C12_hrr_make_unitary_is_idempotent.
+
+Theorem C12_hrr_real_exponents_add_under_binding :
+  forall (R : comRingType) (C : fieldType) (iota : {rmorphism R -> C}) p (w : C),
+    w ^+ p.+1 = 1 -> (forall j : 'I_p.+1, j != 0 -> \sum_k chi w k j = 0) -> GRing.lreg (p.+1%:R : C) ->
+    injective iota ->
+    forall (g : C -> 'I_p.+1 -> C) (ax ay axy : seq R) x y, size ax = p.+1 -> size axy = p.+1 ->
+    (forall k, g (x + y) k = g x k * g y k) ->
+    (forall k, spectrum iota w ax k = g x k) -> (forall k, spectrum iota w ay k = g y k) ->
+    (forall k, spectrum iota w axy k = g (x + y) k) ->
+    axy = hrr_bind_core ax ay.
+Proof. move=> R C iota p w wd orth dreg inj g ax ay axy x y sx sxy gD hx hy hxy; exact: (spectral_powers_add wd orth dreg inj sx sxy gD hx hy hxy). Qed.
+Print Assumptions C12_hrr_real_exponents_add_under_binding.
+
+Theorem C12_hrr_unit_modulus_spectrum_inverse_undoes_binding :
+  forall (R : comRingType) (C : fieldType) (iota : {rmorphism R -> C}) p (w : C),
+    w ^+ p.+1 = 1 -> (forall j : 'I_p.+1, j != 0 -> \sum_k chi w k j = 0) -> GRing.lreg (p.+1%:R : C) ->
+    injective iota ->
+    forall (a u : seq R), size a = p.+1 -> size u = p.+1 ->
+    (forall k : 'I_p.+1, spectrum iota w u k * spectrum iota w u (- k) = 1) ->
+    hrr_bind_core (hrr_bind_core a u) (hrr_invert u) = a.
+Proof. move=> R C iota p w wd orth dreg inj a u sa su uu; exact: (unitary_inverse_undoes_binding wd orth dreg inj sa su uu). Qed.
+Print Assumptions C12_hrr_unit_modulus_spectrum_inverse_undoes_binding.
